@@ -29,6 +29,7 @@ from chameleon.tales import StringExpr
 from chameleon.tales import StructureExpr
 from chameleon.template import BaseTemplate
 from chameleon.template import BaseTemplateFile
+from chameleon.template import _reload_lock
 from chameleon.zpt.program import MacroProgram
 
 
@@ -658,12 +659,15 @@ class Macros:
 
     @property
     def names(self) -> list[str]:
-        self.template.cook_check()
+        # (a snapshot, taken while no other thread can be installing the
+        # entry points of another version: in the middle of that, those of
+        # both versions are there)
+        with _reload_lock(self.template):
+            self.template.cook_check()
+            names = list(self.template.__dict__)
 
         result = []
-        # (a snapshot: another thread that compiles the template adds
-        # entry points while we look)
-        for name in list(self.template.__dict__):
+        for name in names:
             if name.startswith('_render_'):
                 result.append(name[8:])
         return result
